@@ -150,6 +150,18 @@ func init() {
 		w := w
 		register(&op{
 			name: "K/babybear/Poseidon2_" + itoa(w),
+			// first uses: every fast-path parameter set of either small field, seeded (phase 0) and default (phase 1)
+			cold: func() (c [2][][][]byte) {
+				in := make([]byte, 4*w)
+				for i := range in {
+					in[i] = byte(7*i + 1)
+				}
+				for _, p := range [][2]byte{{6, 21}, {8, 13}, {8, 21}} {
+					c[0] = append(c[0], [][]byte{{p[0], p[1], 1}, in})
+					c[1] = append(c[1], [][]byte{{p[0], p[1], 0}, in})
+				}
+				return
+			}(),
 			gen: func(t *rapid.T) ([][]byte, []string, bool) {
 				// parameter sets around the AVX-512 fast-path gate (width, 6 full, 21 partial rounds), seeded or not
 				rf := rapid.SampledFrom([]int{6, 6, 6, 8}).Draw(t, "rf")
